@@ -246,3 +246,47 @@ async fn verif_model_daser_prune_requests() {
     }
     println!("ENUM-OK cases={asked}");
 }
+
+// T4 (C33): a block of width 8 (64 shares: every attempt draws a fresh random 16) is sampled, one share times out, all peers
+// disconnect and one reconnects: the block is sampled again. Every CID requested in the second attempt must already be in
+// the sampling metadata when it is requested.
+#[async_test]
+async fn verif_model_daser_resample() {
+    let (mock, mut handle) = P2p::mocked();
+    let store = Arc::new(InMemoryStore::new());
+    let events = EventChannel::new();
+    let _daser = Daser::start(DaserArgs { event_pub: events.publisher(), p2p: Arc::new(mock), store: store.clone(), sampling_window: SAMPLING_WINDOW, concurrency_limit: 1, additional_headersub_concurrency: 5 }).unwrap();
+    let mut generator = ExtendedHeaderGenerator::new();
+    handle.expect_no_cmd().await;
+    handle.announce_peer_connected();
+    handle.expect_no_cmd().await;
+    let mut cases = 0u64;
+    for round in 0..2u64 {
+        let eds = generate_dummy_eds(8, AppVersion::V2);
+        let header = generator.next_with_dah(DataAvailabilityHeader::from_eds(&eds));
+        let height = header.height();
+        store.insert(header).await.unwrap();
+        // first attempt: the first request times out, the rest succeed
+        for i in 0..16 {
+            let (cid, tx) = handle.expect_get_shwap_cid().await;
+            if i == 0 { tx.send(Err(P2pError::RequestTimedOut)).unwrap(); }
+            else { let id: SampleId = (&cid).try_into().unwrap(); tx.send(Ok(gen_sample_of_cid(id, &eds).await)).unwrap(); }
+        }
+        sleep(Duration::from_millis(60)).await;
+        if store.get_sampled_ranges().await.unwrap().contains(height) { println!("WITNESS C33: block {height} marked as sampled although a share timed out (round {round})"); panic!("witness"); }
+        // reconnect: timed-out blocks are tried again
+        handle.announce_all_peers_disconnected();
+        handle.expect_no_cmd().await;
+        handle.announce_peer_connected();
+        let mut reqs = Vec::new();
+        for _ in 0..16 { reqs.push(handle.expect_get_shwap_cid().await); }
+        let meta = store.get_sampling_metadata(height).await.unwrap().map(|m| m.cids).unwrap_or_default();
+        let missing = reqs.iter().filter(|(cid, _)| !meta.contains(cid)).count();
+        cases += 16;
+        if missing > 0 { println!("WITNESS C33: block {height} sampled a second time: {missing} of the 16 requested shares have no CID in the sampling metadata (round {round})"); panic!("witness"); }
+        for (cid, tx) in reqs { let id: SampleId = (&cid).try_into().unwrap(); tx.send(Ok(gen_sample_of_cid(id, &eds).await)).unwrap(); }
+        sleep(Duration::from_millis(60)).await;
+        if !store.get_sampled_ranges().await.unwrap().contains(height) { println!("WITNESS C33: block {height} not marked as sampled after a fully successful second attempt (round {round})"); panic!("witness"); }
+    }
+    println!("ENUM-OK cases={cases}");
+}
